@@ -31,7 +31,12 @@ def run_property(prop, tier, repo):
     configs = ["default"] + (["nodefault"] if tier == "thorough" else [])
     for cfg in configs:
         path = factcache.get_facts(repo, cfg)
-        F = Facts(path)
+        try:
+            F = Facts(path)
+        except (OSError, ValueError):
+            # the cache entry was evicted by a concurrent run between lookup and load: rebuild it
+            path = factcache.get_facts(repo, cfg)
+            F = Facts(path)
         if F.crate != "flatcontainer":
             raise factcache.InfraError("fact file names crate %r" % F.crate)
         want_serde = cfg == "default"
